@@ -900,7 +900,7 @@ def default_variants(spec, tier='quick'):
     optnum = [p.name for p in spec.params if not p.required and p.kind == 'num']
     if optnum:
         sets = [[], optnum]
-        if tier == 'thorough' and len(optnum) > 1:
+        if len(optnum) > 1 and (tier == 'thorough' or len(optnum) <= 2):
             sets += [[o] for o in optnum]
         vs = [dict(v, omit=list(v.get('omit', [])) + s_) for v in vs for s_ in sets]
     return vs
